@@ -37,34 +37,35 @@ Base(c, d) == IF c = <<>> THEN d ELSE c[1]
 
 \* keys: code is the crossterm KeyCode as the hook prints it; ctrl = CONTROL modifier only
 KeyStep(s, code, ctrl, rows, Det(_), Pos(_), rx) ==
-  CASE code = "F(1)" -> [s EXCEPT !.tab = 0]
-    [] code = "F(2)" -> [s EXCEPT !.tab = 1]
-    [] code = "F(3)" -> [s EXCEPT !.tab = 2]
-    [] code = "F(4)" -> [s EXCEPT !.tab = 3]
-    [] code = "F(5)" -> [s EXCEPT !.tab = 4]
-    [] code = "Tab" -> [s EXCEPT !.tab = (s.tab + 1) % 5]
-    [] code = "Char('q')" -> [s EXCEPT !.quit = TRUE]
-    [] code = "Char('c')" -> IF ctrl THEN [s EXCEPT !.quit = TRUE] ELSE s
-    [] code = "Char('l')" -> [s EXCEPT !.tog = Flip(s.tog, 1)]
-    [] code = "Char('i')" -> [s EXCEPT !.tog = Flip(s.tog, 2)]
-    [] code = "Char('h')" -> [s EXCEPT !.tog = Flip(s.tog, 3)]
-    [] code = "Char('t')" -> [s EXCEPT !.tog = Flip(s.tog, 4)]
-    [] code = "Char('n')" -> [s EXCEPT !.tog = Flip(s.tog, 5)]
-    [] code = "Char('-')" /\ OnMap(s) -> [s EXCEPT !.zoom = s.zoom + 1]
-    [] code = "Char('+')" /\ OnMap(s) -> [s EXCEPT !.zoom = s.zoom - 1]
-    [] code = "Up" /\ OnMap(s) -> [s EXCEPT !.clat = <<Base(s.clat, rx.lat) + 5000>>]
-    [] code = "Down" /\ OnMap(s) -> [s EXCEPT !.clat = <<Base(s.clat, rx.lat) - 5000>>]
-    [] code = "Left" /\ OnMap(s) -> [s EXCEPT !.clong = <<Base(s.clong, rx.lon) - 30000>>]
-    [] code = "Right" /\ OnMap(s) -> [s EXCEPT !.clong = <<Base(s.clong, rx.lon) + 30000>>]
-    [] code = "Enter" /\ OnMap(s) -> [s EXCEPT !.clat = <<>>, !.clong = <<>>, !.zoom = 0]
-    [] code = "Up" /\ s.tab = 2 -> [s EXCEPT !.sel = IF s.sel = NoSel \/ s.sel = 0 THEN 0 ELSE s.sel - 1]
-    [] code = "Down" /\ s.tab = 2 -> [s EXCEPT !.sel = IF s.sel = NoSel THEN 0 ELSE s.sel + 1]
-    [] code = "Enter" /\ s.tab = 2 ->
-         IF s.sel = NoSel THEN s
-         ELSE IF s.sel >= rows THEN (IF Guards THEN s ELSE [s EXCEPT !.panicked = TRUE])      \* keys().nth(sel).unwrap()
-         ELSE IF Det(s.sel) THEN [s EXCEPT !.clat = <<Pos(s.sel).lat>>, !.clong = <<Pos(s.sel).lon>>, !.tab = 0]
-         ELSE s
-    [] OTHER -> s
+  \* (an IF chain rather than CASE: the guards are mutually exclusive, and the proof system handles IF better)
+  IF code = "F(1)" THEN [s EXCEPT !.tab = 0]
+  ELSE IF code = "F(2)" THEN [s EXCEPT !.tab = 1]
+  ELSE IF code = "F(3)" THEN [s EXCEPT !.tab = 2]
+  ELSE IF code = "F(4)" THEN [s EXCEPT !.tab = 3]
+  ELSE IF code = "F(5)" THEN [s EXCEPT !.tab = 4]
+  ELSE IF code = "Tab" THEN [s EXCEPT !.tab = (s.tab + 1) % 5]
+  ELSE IF code = "Char('q')" THEN [s EXCEPT !.quit = TRUE]
+  ELSE IF code = "Char('c')" THEN (IF ctrl THEN [s EXCEPT !.quit = TRUE] ELSE s)
+  ELSE IF code = "Char('l')" THEN [s EXCEPT !.tog = Flip(s.tog, 1)]
+  ELSE IF code = "Char('i')" THEN [s EXCEPT !.tog = Flip(s.tog, 2)]
+  ELSE IF code = "Char('h')" THEN [s EXCEPT !.tog = Flip(s.tog, 3)]
+  ELSE IF code = "Char('t')" THEN [s EXCEPT !.tog = Flip(s.tog, 4)]
+  ELSE IF code = "Char('n')" THEN [s EXCEPT !.tog = Flip(s.tog, 5)]
+  ELSE IF code = "Char('-')" /\ OnMap(s) THEN [s EXCEPT !.zoom = s.zoom + 1]
+  ELSE IF code = "Char('+')" /\ OnMap(s) THEN [s EXCEPT !.zoom = s.zoom - 1]
+  ELSE IF code = "Up" /\ OnMap(s) THEN [s EXCEPT !.clat = <<Base(s.clat, rx.lat) + 5000>>]
+  ELSE IF code = "Down" /\ OnMap(s) THEN [s EXCEPT !.clat = <<Base(s.clat, rx.lat) - 5000>>]
+  ELSE IF code = "Left" /\ OnMap(s) THEN [s EXCEPT !.clong = <<Base(s.clong, rx.lon) - 30000>>]
+  ELSE IF code = "Right" /\ OnMap(s) THEN [s EXCEPT !.clong = <<Base(s.clong, rx.lon) + 30000>>]
+  ELSE IF code = "Enter" /\ OnMap(s) THEN [s EXCEPT !.clat = <<>>, !.clong = <<>>, !.zoom = 0]
+  ELSE IF code = "Up" /\ s.tab = 2 THEN [s EXCEPT !.sel = IF s.sel = NoSel \/ s.sel = 0 THEN 0 ELSE s.sel - 1]
+  ELSE IF code = "Down" /\ s.tab = 2 THEN [s EXCEPT !.sel = IF s.sel = NoSel THEN 0 ELSE s.sel + 1]
+  ELSE IF code = "Enter" /\ s.tab = 2
+       THEN (IF s.sel = NoSel THEN s
+             ELSE IF s.sel >= rows THEN (IF Guards THEN s ELSE [s EXCEPT !.panicked = TRUE])      \* keys().nth(sel).unwrap()
+             ELSE IF Det(s.sel) THEN [s EXCEPT !.clat = <<Pos(s.sel).lat>>, !.clong = <<Pos(s.sel).lon>>, !.tab = 0]
+             ELSE s)
+  ELSE s
 
 \* mouse: kind as the hook prints it; btn = touchscreen button rows <<<<y, h>>, ..>> (empty when not shown),
 \* left = left edge of the map area
